@@ -18,6 +18,10 @@ var _ = Service("svc", func() {
 			Attribute("codes", ArrayOf(CodeT))
 			Attribute("by_code", MapOf(CodeT, Qty))
 			Attribute("qty", Qty)
+			// alias validations plus validations of the attribute itself; a
+			// sibling of the same alias type without any
+			Attribute("base", CodeT, func() { Enum("AB", "CD", "ab") })
+			Attribute("quote", CodeT)
 			Attribute("dims", func() {
 				Attribute("w", Int, func() { Minimum(0) })
 				Attribute("h", Int)
